@@ -52,6 +52,44 @@ Theorem C20_restricted_string_exact :
 Proof. exact construct_str_exact. Qed.
 Print Assumptions C20_restricted_string_exact.
 
+(* Creating a restricted string type goes through extend_base_type's registry. Whether the register key is the
+   pattern text alone (kf = false, the tree as it was) or text and flags (kf = true,
+   fixes/C20-string-type-key-ignores-flags.patch) is read from the source (Gen/C20Registry.string_key_has_flags);
+   `compile` is re.compile. When the key is new, or was registered with this very compiled pattern
+   (str_key_guard, the judge's class function), the type handed back accepts exactly what the GIVEN pattern accepts. *)
+Theorem C20_string_type_creation :
+  forall compile kf reg name text flags t reg',
+    str_key_guard compile kf reg text flags = true -> create_str compile kf reg name text flags = (Some t, reg') ->
+    forall v, construct_str t v = construct_str (compile text flags) v.
+Proof. exact create_str_guarded. Qed.
+Print Assumptions C20_string_type_creation.
+
+(* With the flags in the key no guard is left: along ANY history of creations (reg_wf holds of the empty registry
+   and is preserved) the type handed back accepts exactly what the given pattern accepts. *)
+Theorem C20_string_type_creation_flags_in_key :
+  forall compile reg name text flags t reg',
+    reg_wf compile reg -> create_str compile true reg name text flags = (Some t, reg') ->
+    (forall v, construct_str t v = construct_str (compile text flags) v) /\ reg_wf compile reg'.
+Proof. intros compile reg name text flags t reg'. exact (create_str_flags_in_key compile true reg name text flags t reg' eq_refl). Qed.
+Print Assumptions C20_string_type_creation_flags_in_key.
+
+(* FINDING (known_findings/C20.txt key=string-type-key-ignores-flags): with the text-only key the unguarded
+   statement is false of the faithful model. restricted_string_type("T", "^a$") followed by
+   restricted_string_type("T", re.compile("^a$", re.I)) hands the first type back: "A" is rejected although the
+   given pattern matches it. *)
+Theorem C20_string_type_key_ignores_flags_refuted :
+  exists compile reg name text flags t reg' v,
+    create_str compile false reg name text flags = (Some t, reg')
+    /\ construct_str t v <> construct_str (compile text flags) v.
+Proof.
+  exists (fun _ fl => {| p_body := RCls (if is_nil fl then [(97, 97)] else [(97, 97); (65, 65)])%N false;
+                         p_end := true; p_multi := false |}),
+         [(([94; 97; 36]%N, @nil N), ([84]%N, {| p_body := RCls [(97, 97)]%N false; p_end := true; p_multi := false |}))],
+         [84]%N, [94; 97; 36]%N, [73]%N.
+  eexists. eexists. exists (PStr [65]%N). split; [reflexivity | vm_compute; discriminate].
+Qed.
+Print Assumptions C20_string_type_key_ignores_flags_refuted.
+
 (* the predefined NotEmptyStr (translated from the source): accepted iff some character is not a
    blank... and, `.` not matching a newline, iff the text is a single line with a non-blank
    character, optionally followed by one final newline *)
@@ -153,3 +191,9 @@ Proof. vm_compute. repeat split; reflexivity. Qed.
 
 Example C20_float_faithful_example : float_faithful dy_of_dec (fun d => Some d).
 Proof. exact float_faithful_witness. Qed.
+
+Example C20_str_key_guard_example :
+  let compile := fun (_ _ : str) => {| p_body := RCls [(97, 97)]%N false; p_end := true; p_multi := false |} in
+  str_key_guard compile false [] [94; 97; 36]%N [] = true /\ reg_wf compile []
+  /\ fst (create_str compile false [] [84]%N [94; 97; 36]%N []) = Some (compile [] []).
+Proof. vm_compute. repeat split; try reflexivity. intros k n p []. Qed.
